@@ -123,6 +123,9 @@ NOINL void world_final(uint32_t all_done, uint32_t stuck)
         CHECK(closed || !(rblk && CH.v.size() > 0), "no receiver stays blocked while an item is buffered");
         CHECK(closed || !(sblk && CH.v.size() < CAP), "no sender stays blocked while a slot is free");
 #endif
+        // nobody will ever run again: whatever was reported sent must already have been received
+        for (int s = 0; s < KN; s++) for (int k = 0; k < NSEND; k++)
+            if (sent_ok[s][k] == 1 && CH.v.size() == 0) CHECK(got[s][k] == 1, "stuck end state: a value whose send returned true has been received");
         WITNESS("a party can stay blocked when no partner ever arrives");
     }
 }
